@@ -39,16 +39,24 @@ theorem moduleAccount_iff (s : State) : C05.ModuleAccount s ↔ ∀ d, gap s d =
   · intro h d; have := h d; omega
   · intro h d; have := h d; omega
 
-/-- the invariant bundle (everything that holds as long as no operation of the F-farm-2
-class has been executed) -/
-structure Inv (s : State) : Prop where
-  stakes : Stakes s
+/-- every farmer record belongs to a stored pool -/
+def FarmerPool (s : State) : Prop := ∀ a id f, getFarmer s a id = some f → ∃ p, getPool s id = some p
+
+/-- the components that also hold in the intermediate states of a handler -/
+structure Core (s : State) : Prop where
   wf     : PoolsAll PoolWF s
   time   : PoolsAll (PoolTime s.height) s
   queue  : C13Farm.QueueOK s
-  modacc : C05.ModuleAccount s
   budget : C06.BudgetOK s
   debt   : DebtOK s
+  fpool  : FarmerPool s
+
+/-- the invariant bundle (everything that holds as long as no operation of the F-farm-2
+class has been executed) -/
+structure Inv (s : State) : Prop where
+  core   : Core s
+  stakes : Stakes s
+  modacc : C05.ModuleAccount s
 
 /-! ### pool-local predicates under store updates -/
 
